@@ -351,7 +351,29 @@ func genC15Sub(t *rapid.T) C15SubCase {
 	for i := range ds {
 		ds[i] = byte('0' + gen.Intn(t, 10))
 	}
-	switch gen.Intn(t, 6) {
+	switch gen.Intn(t, 9) {
+	case 6:
+		// less than one nanosecond: nine leading zeros, the rest decides the rounding
+		for i := 0; i < 9; i++ {
+			ds[i] = '0'
+		}
+		ds[9] = byte('0' + gen.Pick(t, []int{0, 1, 4, 5, 6, 9}))
+	case 7:
+		// just above / just below half a nanosecond after nine arbitrary digits
+		if gen.Chance(t, 50) {
+			ds[9] = '6'
+		} else {
+			ds[9] = '4'
+		}
+		if gen.Chance(t, 50) {
+			ds = ds[:10]
+		}
+	case 8:
+		// short coefficient after many zeros (coefficient has fewer digits than the shift)
+		for i := range ds {
+			ds[i] = '0'
+		}
+		ds[gen.Range(t, 9, n-1)] = byte('1' + gen.Intn(t, 9))
 	case 0:
 		for i := range ds {
 			ds[i] = '9'
